@@ -1,9 +1,17 @@
 /-
   Tie A for the one-line array transforms (C19): the hand-written scalar maps of `GSV.Model.Transform`
   (`toLognormal`, `boxcox`, `forceMoments`, `toUniform`, `uniformToArcsin`, `uniformToUquad`, `toArcsin`, `toUquad`,
-  `zinnharvey`) are EQUAL, for all parameters and data, to the definitions that `vlib/pyexpr2lean.py` regenerates
-  from the current text of `src/gstools/transform/array.py` on every run of `./check`
+  `zinnharvey`) are EQUAL over `ℝ`, for all parameters and data, to the definitions that `vlib/pyexpr2lean.py`
+  regenerates from the current text of `src/gstools/transform/array.py` on every run of `./check`
   (`GSV/Gen/TransformFormulas.lean`).
+
+  The theorems `*_eq_model_real` are the registered obligations, proved by `tie_real` (`GSV/Props/GenTieReal.lean`:
+  unfold, vocabulary, normal form of roots / powers / ring subterms — `√(2 var) = √2 √var` needs no hypothesis —, split,
+  `ring1 | ring_nf | field_simp; ring1`), which keeps checking when a source formula is rewritten into a real-equal one
+  (`(a + b) / 2` -> `a + (b - a) / 2`, folding `√2`, `√var` and the sign of `array_zinnharvey` into one scalar) and stops
+  checking on a semantic edit.  No side condition is needed: the equalities hold for all real arguments (also for
+  `var ≤ 0`, where both sides contain the same totalised `√`).  The carrier-polymorphic `rfl` form of the three
+  equalities that re-associate nothing is in `GenTieTransformExact.lean` (informative).
 
   * The model is written in terms of the standard normal cdf `Φ` and its quantile function (parameters
     `cdf ppf`), the code in terms of `scipy.special.erf / erfinv` (parameter `sps : Sps α` of the generated
@@ -16,16 +24,16 @@
   * `mean=None` / `var=None` (moments taken from the sample) are not generated: the generated definitions take
     `mean`, `var` as given numbers, like the model.  Optional bounds `a`, `b` are generated in both variants.
   * `array_discrete` (loop over thresholds, sorting) is outside the subset: tie B only.
-  Equalities that only re-associate nothing hold on every carrier (`rfl`); the others are over `ℝ`.
 -/
 import GSV.RealInst
+import GSV.Props.GenTieReal
 import GSV.Model.Transform
 import GSV.Gen.TransformFormulas
 
 set_option linter.unusedSectionVars false
 
 namespace GSV.Props.GenTieTransform
-open GSV GSV.Transc GSV.PyExpr GSV.Model.Transform GSV.Gen.TransformFormulas
+open GSV GSV.Transc GSV.PyExpr GSV.Model.Transform GSV.Gen.TransformFormulas GSV.Props.GenTieReal
 
 variable {α : Type} [Arith α] [Transc α] [DecidableLT α] [DecidableLE α]
 
@@ -34,97 +42,62 @@ def cdfOf (sps : Sps α) (z : α) : α := (0.5:α) * (((1:Nat):α) + sps.erf (z 
 /-- the normal quantile function as the code writes it: `sqrt 2 * erfinv(2 u - 1)` -/
 def ppfOf (sps : Sps α) (u : α) : α := sqrt ((2:Nat):α) * sps.erfinv (((2:Nat):α) * u - ((1:Nat):α))
 
-/-! ### same text as the model, on every carrier -/
-
-theorem array_to_lognormal_eq_model (x : α) : array_to_lognormal x = toLognormal x := rfl
-
-theorem uniform_to_arcsin_eq_model (a b u : α) : _uniform_to_arcsin u a b = uniformToArcsin a b u := rfl
-
-/-- `array_force_moments`: every element is mapped by the generated formula with the sample moments -/
-theorem array_force_moments_eq_model (mean var : α) (l : List α) :
-    forceMoments mean var l = l.map fun x => array_force_moments (lmean l) (lvar l) x mean var := rfl
-
-/-! ### over `ℝ` -/
-
 theorem isclose_zero_real (x : ℝ) : PyExpr.isclose x ((0:Nat):ℝ) = lmbdaIsZero x := by
   simp [PyExpr.isclose, lmbdaIsZero]
 
-theorem array_boxcox_eq_model (lmbda shift x : ℝ) : array_boxcox x lmbda shift = boxcox lmbda shift x := by
-  rw [array_boxcox, boxcox, isclose_zero_real]
-  rfl
+/-! ### the obligations: equality over `ℝ`, robust against real-equal rewrites of the source
 
+`tie_tf G, M` unfolds the generated definition `G`, the model function `M` and the model's helpers (the generated
+definitions have the helpers of `array.py` inlined by the translator), reads `np.isclose(lmbda, 0)` as the model's
+`lmbdaIsZero`, and runs `tie_real`. -/
+
+local macro "tie_tf " g:ident ", " m:ident : tactic =>
+  `(tactic| tie_real [$g:ident, $m:ident, toUniform, uniformToArcsin, uniformToUquad, cdfOf, ppfOf, standardize, zhCore,
+      toLognormal, maxZero, arcsinDefaultA, arcsinDefaultB, uquadDefaultA, uquadDefaultB, Option.getD_some, Option.getD_none,
+      isclose_zero_real])
+
+theorem array_to_lognormal_eq_model_real (x : ℝ) : array_to_lognormal x = toLognormal x := by
+  tie_tf array_to_lognormal, toLognormal
+theorem uniform_to_arcsin_eq_model_real (a b u : ℝ) : _uniform_to_arcsin u a b = uniformToArcsin a b u := by
+  tie_tf _uniform_to_arcsin, uniformToArcsin
+/-- `array_force_moments`: every element is mapped by the generated formula with the sample moments -/
+theorem array_force_moments_eq_model_real (mean var : ℝ) (l : List ℝ) :
+    forceMoments mean var l = l.map fun x => array_force_moments (lmean l) (lvar l) x mean var := by
+  simp only [forceMoments]
+  refine List.map_congr_left fun x _ => ?_
+  tie_tf array_force_moments, array_force_moments
+theorem array_boxcox_eq_model_real (lmbda shift x : ℝ) : array_boxcox x lmbda shift = boxcox lmbda shift x := by
+  tie_tf array_boxcox, boxcox
 /-- the cube-root branches: the code fills `y > 0` first and `y < 0` second, the model tests `0 < y` first -/
-theorem uniform_to_uquad_eq_model (a b u : ℝ) : _uniform_to_uquad u a b = uniformToUquad a b u := by
-  simp only [_uniform_to_uquad, uniformToUquad]
-  generalize ((3:Nat):ℝ) * u / (((12:Nat):ℝ) / npow (b - a) 3) + npow (a - b) 3 / ((8:Nat):ℝ) = y
-  congr 1
-  rcases lt_trichotomy y ((0:Nat):ℝ) with h | h | h
-  · have h' : ¬ (((0:Nat):ℝ) < y) := not_lt.mpr h.le
-    rw [if_pos h, if_neg h', if_pos h]
-  · have h1 : ¬ (y < ((0:Nat):ℝ)) := by rw [h]; exact lt_irrefl _
-    have h2 : ¬ (((0:Nat):ℝ) < y) := by rw [h]; exact lt_irrefl _
-    have h3 : ¬ (y > ((0:Nat):ℝ)) := h2
-    rw [if_neg h1, if_neg h3, if_neg h2, if_neg h1]
-  · have h' : ¬ (y < ((0:Nat):ℝ)) := not_lt.mpr h.le
-    have h3 : y > ((0:Nat):ℝ) := h
-    rw [if_neg h', if_pos h3, if_pos h]
-
-theorem sqrt_two_mul (v : ℝ) : Real.sqrt (2 * v) = Real.sqrt 2 * Real.sqrt v :=
-  Real.sqrt_mul (by norm_num) v
-
-theorem array_to_uniform_eq_model (sps : Sps ℝ) (mean var low high x : ℝ) :
+theorem uniform_to_uquad_eq_model_real (a b u : ℝ) : _uniform_to_uquad u a b = uniformToUquad a b u := by
+  tie_tf _uniform_to_uquad, uniformToUquad
+theorem array_to_uniform_eq_model_real (sps : Sps ℝ) (mean var low high x : ℝ) :
     array_to_uniform sps x mean var low high = toUniform (cdfOf sps) mean var low high x := by
-  simp only [array_to_uniform, toUniform, cdfOf, standardize, sqrt_real]
-  push_cast
-  rw [sqrt_two_mul, div_div, mul_comm (Real.sqrt var)]
-
-theorem array_to_arcsin_eq_model (sps : Sps ℝ) (mean var a b x : ℝ) :
+  tie_tf array_to_uniform, toUniform
+theorem array_to_arcsin_eq_model_real (sps : Sps ℝ) (mean var a b x : ℝ) :
     array_to_arcsin sps x mean var a b = toArcsin (cdfOf sps) mean var (some a) (some b) x := by
-  have e := array_to_uniform_eq_model sps mean var ((0:Nat):ℝ) ((1:Nat):ℝ) x
-  have e0 : ((0.0:ℝ)) = ((0:Nat):ℝ) := by norm_num
-  have e1 : ((1.0:ℝ)) = ((1:Nat):ℝ) := by norm_num
-  rw [toArcsin, e0, e1, ← e]
-  rfl
-
-theorem array_to_arcsin_default_eq_model (sps : Sps ℝ) (mean var x : ℝ) :
+  tie_tf array_to_arcsin, toArcsin
+theorem array_to_arcsin_default_eq_model_real (sps : Sps ℝ) (mean var x : ℝ) :
     array_to_arcsin_default sps x mean var = toArcsin (cdfOf sps) mean var none none x := by
-  have e := array_to_uniform_eq_model sps mean var ((0:Nat):ℝ) ((1:Nat):ℝ) x
-  have e0 : ((0.0:ℝ)) = ((0:Nat):ℝ) := by norm_num
-  have e1 : ((1.0:ℝ)) = ((1:Nat):ℝ) := by norm_num
-  have e2 : ((2.0:ℝ)) = ((2:Nat):ℝ) := by norm_num
-  rw [toArcsin, e0, e1, ← e]
-  simp only [Option.getD_none, arcsinDefaultA, arcsinDefaultB, e2]
-  rfl
-
-theorem array_to_uquad_eq_model (sps : Sps ℝ) (mean var a b x : ℝ) :
+  tie_tf array_to_arcsin_default, toArcsin
+theorem array_to_uquad_eq_model_real (sps : Sps ℝ) (mean var a b x : ℝ) :
     array_to_uquad sps x mean var a b = toUquad (cdfOf sps) mean var (some a) (some b) x := by
-  have e := array_to_uniform_eq_model sps mean var ((0:Nat):ℝ) ((1:Nat):ℝ) x
-  have e0 : ((0.0:ℝ)) = ((0:Nat):ℝ) := by norm_num
-  have e1 : ((1.0:ℝ)) = ((1:Nat):ℝ) := by norm_num
-  rw [toUquad, e0, e1, ← e, Option.getD_some, Option.getD_some, ← uniform_to_uquad_eq_model]
-  rfl
-
-theorem array_to_uquad_default_eq_model (sps : Sps ℝ) (mean var x : ℝ) :
+  tie_tf array_to_uquad, toUquad
+theorem array_to_uquad_default_eq_model_real (sps : Sps ℝ) (mean var x : ℝ) :
     array_to_uquad_default sps x mean var = toUquad (cdfOf sps) mean var none none x := by
-  have e := array_to_uniform_eq_model sps mean var ((0:Nat):ℝ) ((1:Nat):ℝ) x
-  have e0 : ((0.0:ℝ)) = ((0:Nat):ℝ) := by norm_num
-  have e1 : ((1.0:ℝ)) = ((1:Nat):ℝ) := by norm_num
-  have e5 : ((5.0:ℝ)) = ((5:Nat):ℝ) := by norm_num
-  have e3 : ((3.0:ℝ)) = ((3:Nat):ℝ) := by norm_num
-  rw [toUquad, e0, e1, ← e, Option.getD_none, Option.getD_none, ← uniform_to_uquad_eq_model]
-  simp only [uquadDefaultA, uquadDefaultB, e5, e3]
-  rfl
-
-theorem zh_arg (e : ℝ) : ((2:Nat):ℝ) * ((0.5:ℝ) * (((1:Nat):ℝ) + e)) - ((1:Nat):ℝ) = e := by
-  push_cast; ring
-
-theorem array_zinnharvey_high_eq_model (sps : Sps ℝ) (mean var x : ℝ) :
+  tie_tf array_to_uquad_default, toUquad
+theorem array_zinnharvey_high_eq_model_real (sps : Sps ℝ) (mean var x : ℝ) :
     array_zinnharvey_high sps x mean var = zinnharvey (cdfOf sps) (ppfOf sps) true mean var x := by
-  simp only [array_zinnharvey_high, zinnharvey, zhCore, cdfOf, ppfOf, standardize, zh_arg, if_true]
-
-theorem array_zinnharvey_low_eq_model (sps : Sps ℝ) (mean var x : ℝ) :
+  tie_tf array_zinnharvey_high, zinnharvey
+theorem array_zinnharvey_low_eq_model_real (sps : Sps ℝ) (mean var x : ℝ) :
     array_zinnharvey_low sps x mean var = zinnharvey (cdfOf sps) (ppfOf sps) false mean var x := by
-  simp only [array_zinnharvey_low, zinnharvey, zhCore, cdfOf, ppfOf, standardize, zh_arg, Bool.false_eq_true,
-    if_false]
+  tie_tf array_zinnharvey_low, zinnharvey
+
+/-- the statements are about non-trivial objects: e.g. `array_to_uniform` with `erf := id` at `x = mean` is the midpoint
+    `(low + high) / 2` on both sides -/
+example (mean var low high : ℝ) :
+    array_to_uniform ⟨id, id, id, id, fun _ x => x, fun _ x => x, fun _ x => x, fun _ _ _ x => x⟩ mean mean var low high
+      = (low + high) / 2 := by
+  simp only [array_to_uniform, id, sub_self, zero_div]; push_cast; norm_num; ring
 
 end GSV.Props.GenTieTransform
